@@ -68,6 +68,10 @@ def cases(tier):
             out.append({"family": "daily", "model": name, "usage": True, "pat": list(pat)})
         for pat in itertools.product(range(len(ALPHA_T)), repeat=nn):
             out.append({"family": "daily", "model": name, "usage": False, "pat": list(pat)})
+        if name == "full_smooth":
+            for dt in ("Float64", "float32"):
+                for pat in itertools.product(range(len(ALPHA_DAILY)), repeat=3):
+                    out.append({"family": "daily", "model": name, "usage": True, "pat": list(pat), "dtype": dt})
         if name in ("full_smooth", "split4"):
             for pat in itertools.product(range(len(ALPHA_DAILY)), repeat=4):
                 out.append({"family": "daily", "model": name, "usage": True, "pat": list(pat), "frame": "window_only"})
@@ -123,7 +127,15 @@ def build_daily(case):
     cols = {"temperature": T}
     if case["usage"]:
         cols = {"observed": y, "temperature": T}
-    data = em.DailyReportingData(pd.DataFrame(cols, index=idx), is_electricity_data=True)
+    frame = pd.DataFrame(cols, index=idx)
+    if case.get("dtype"):
+        # the same values in another column dtype: pandas' nullable Float64 (missing = pd.NA), float32, or Arrow-backed doubles
+        for c in frame.columns:
+            try:
+                frame[c] = frame[c].astype(case["dtype"])
+            except Exception:
+                pass
+    data = em.DailyReportingData(frame, is_electricity_data=True)
     return data, idx, exp_T_ok, exp_U_ok
 
 
